@@ -18,7 +18,9 @@ NextReset(i) == CHOOSE j \in (i + 1)..(Len(TraceLog) + 1) :
                     /\ \A k \in (i + 1)..(j - 1) : TraceLog[k].op # "Reset"
 
 \* every field the specification states must be present in the observation with the same value
-ObsOK(o, obs) == \A f \in DOMAIN o : f \in DOMAIN obs /\ o[f] = obs[f]
+\* (an observation {"skip": ..} asks only whether the call is enabled: used by bin/shrink.py to discard candidates
+\*  that are not behaviours of the specification)
+ObsOK(o, obs) == "skip" \in DOMAIN obs \/ \A f \in DOMAIN o : f \in DOMAIN obs /\ o[f] = obs[f]
 
 Reject(i) == PrintT("TRACE_REJECTED_AT " \o ToString(i))
 Track(i)  == TLCSet(1, IF TLCGet(1) > i THEN TLCGet(1) ELSE i)
